@@ -5,7 +5,7 @@ From stdpp Require Import gmap.
 From Coq Require Import ZArith.
 From V Require Import Base.Res Sched.LedgerModel Sched.StmtModel Sched.GangModel Sched.LedgerInvP Sched.LedgerInv
   Sched.LedgerLemmasA Sched.LedgerLemmasJob Sched.LedgerLemmasNode Sched.LedgerLemmasSess Sched.LedgerLemmasSk
-  Sched.LedgerLemmasTxn Sched.LedgerLemmasTxnN Sched.LedgerLemmasSound Sched.LedgerLemmasEx C07.Example C07.Refuted.
+  Sched.LedgerLemmasTxn Sched.LedgerLemmasTxnN Sched.LedgerLemmasAudit Sched.LedgerLemmasSound Sched.LedgerLemmasEx C07.Example C07.Refuted.
 Open Scope Z_scope.
 
 (* ---- 1. primitives ---- *)
@@ -71,12 +71,66 @@ Theorem C07_sess_wf_necessary_refuted :
 Proof. exact sess_wf_necessary_refuted. Qed.
 Print Assumptions C07_sess_wf_necessary_refuted.
 
-(* ---- 3. nothing of an undecided transaction reaches the binder / evictor ---- *)
+(* ---- 3. what reaches the binder / evictor ----
+   The clause "nothing of an undecided transaction reaches the binder" is FALSE on the model and
+   on the Go code (C07_undecided_reaches_binder_refuted, known finding
+   C07-session-allocate-dispatches-open-statement-task).  What holds: *)
+
+(* (a) every history without Commit / Session.Allocate / Session.Evict leaves both logs untouched *)
 Theorem C07_undecided_invisible : forall eps s o,
   touches_cache o = false ->
   binds (fst (step eps s o)) = binds s /\ evicts (fst (step eps s o)) = evicts s.
 Proof. exact undecided_invisible. Qed.
 Print Assumptions C07_undecided_invisible.
+
+Theorem C07_undecided_invisible_run : forall eps ops s,
+  Forall (fun o => touches_cache o = false) ops ->
+  binds (run eps s ops) = binds s /\ evicts (run eps s ops) = evicts s.
+Proof. exact undecided_invisible_run. Qed.
+Print Assumptions C07_undecided_invisible_run.
+
+(* (b) Commit of statement sid (any number of recorded operations): the binder receives only
+   Allocate operations recorded in sid that the cache does not refuse, the evictor only Evict
+   operations recorded in sid that it does not refuse; the statement is empty afterwards *)
+Theorem C07_commit_logs_only_own : forall eps s sid,
+  sess_ok s ->
+  let s' := stmt_commit eps s sid in
+  let ops := default [] (stmts s !! sid) in
+  sess_ok s' /\ stmts s' !! sid = Some [] /\
+  exists lb le, binds s' = lb ++ binds s /\ evicts s' = le ++ evicts s /\
+    (forall b, b ∈ lb -> exists o, o ∈ ops /\ op_kind o = KAllocate /\ fst b = op_task o /\ op_task o ∉ refuse_bind s) /\
+    (forall e, e ∈ le -> exists o, o ∈ ops /\ op_kind o = KEvict /\ e = op_task o /\ op_task o ∉ refuse_evict s).
+Proof. exact commit_logs_only_own. Qed.
+Print Assumptions C07_commit_logs_only_own.
+
+(* (c) Session.Allocate / Pipeline: the binder receives only the task the call was made with and
+   tasks the job's Allocated index held before the call, none whose bind the cache refuses; the
+   evictor receives nothing *)
+Theorem C07_ssn_place_binds : forall eps jr s k tid nid,
+  exists lb, binds (fst (ssn_place_with eps jr s k tid nid)) = lb ++ binds s /\
+    evicts (fst (ssn_place_with eps jr s k tid nid)) = evicts s /\
+    forall b, b ∈ lb ->
+      k = KAllocate /\ fst b ∉ refuse_bind s /\
+      exists p j, heap s !! tid = Some p /\ jobs s !! t_job p = Some j /\
+                  (fst b = t_id p \/ fst b ∈ idx_set (j_index j) Allocated).
+Proof. exact ssn_place_binds. Qed.
+Print Assumptions C07_ssn_place_binds.
+
+(* (d) ... and that index may hold a task an OPEN statement placed: it reaches the binder, and a
+   later Discard un-allocates it in the session while the binder keeps it *)
+Theorem C07_undecided_reaches_binder_refuted :
+  exists s sid t1 t5 nid,
+    okb s = true /\
+    let s1 := run ex_eps s [OAllocate sid t1 nid; OSetFaults [] [] [] true; OSsnAllocate t5 nid] in
+    okb s1 = true /\
+    map op_task (default [] (stmts s1 !! sid)) = [t1] /\
+    map fst (binds s1) = [t5; t1] /\
+    task_view s1 t1 = Some (Binding, Some nid) /\
+    let s2 := run ex_eps s1 [ODiscard sid] in
+    okb s2 = true /\ task_view s2 t1 = Some (Pending, None) /\ copy_status s2 nid t1 = None /\
+    map fst (binds s2) = [t5; t1].
+Proof. exact undecided_reaches_binder_refuted. Qed.
+Print Assumptions C07_undecided_reaches_binder_refuted.
 
 (* ---- 4. a failed operation leaves no trace ---- *)
 Theorem C07_failed_op_no_trace : forall eps s sid k p nid s',
@@ -125,6 +179,41 @@ Theorem C07_dispatch_all_prefix_refuted :
 Proof. exact dispatch_all_prefix_refuted. Qed.
 Print Assumptions C07_dispatch_all_prefix_refuted.
 
+(* outside the call sites' precondition [placeable] the node CAN refuse the task and the failed
+   call leaves a trace (known finding C07-failed-placement-outside-precondition-not-restored) *)
+Theorem C07_failed_place_on_node_refuted :
+  (let s := run ex_eps ex_sess [OPipeline 1 4 2] in
+   snd (step ex_eps s (OAllocate 2 4 2)) = RErr /\
+   let s' := fst (step ex_eps s (OAllocate 2 4 2)) in
+   okb s = true /\ okb s' = true /\ sess_sameb s s' = false /\
+   task_view s 4 = Some (Pipelined, Some 2%positive) /\ task_view s' 4 = Some (Pending, None) /\
+   copy_status s 2 4 = Some Pipelined /\ copy_status s' 2 4 = None /\
+   map op_task (default [] (stmts s' !! 1%positive)) = [4%positive]) /\
+  (snd (step ex_eps ex_sess (OAllocate 2 2 1)) = RErr /\
+   let s' := fst (step ex_eps ex_sess (OAllocate 2 2 1)) in
+   okb s' = true /\ sess_sameb ex_sess s' = false /\ task_view s' 2 = Some (Pending, None) /\ copy_status s' 1 2 = None) /\
+  (let s := run ex_eps ex_sess [OPipeline 1 4 2] in
+   snd (step ex_eps s (OSsnAllocate 4 2)) = RErr /\
+   let s' := fst (step ex_eps s (OSsnAllocate 4 2)) in
+   okb s' = true /\ sess_sameb s s' = false /\ task_view s' 4 = Some (Pending, None) /\ copy_status s' 2 4 = Some Pipelined).
+Proof. exact failed_place_on_node_refuted. Qed.
+Print Assumptions C07_failed_place_on_node_refuted.
+
+(* without "the job holds no other Allocated task" a failed Session.Allocate keeps the task it was
+   called with Allocated (known finding C07-session-allocate-error-keeps-argument-allocated) *)
+Theorem C07_failed_ssn_allocate_keeps_argument_refuted :
+  exists s t1 t5 nid,
+    okb s = true /\
+    let s1 := run ex_eps s [OSetFaults [] [] [] false; OSsnAllocate t1 nid; OSetFaults [] [t1] [] true] in
+    task_view s1 t5 = Some (Pending, None) /\ on_no_node s1 t5 = true /\
+    snd (step ex_eps s1 (OSsnAllocate t5 nid)) = RErr /\
+    let s2 := fst (step ex_eps s1 (OSsnAllocate t5 nid)) in
+    okb s2 = true /\ task_view s2 t1 = Some (Pending, None) /\
+    task_view s2 t5 = Some (Allocated, Some nid) /\ copy_status s2 nid t5 = Some Allocated /\
+    binds s2 = [] /\ sess_sameb s1 s2 = false.
+Proof. exact failed_ssn_allocate_keeps_argument_refuted. Qed.
+Print Assumptions C07_failed_ssn_allocate_keeps_argument_refuted.
+
 (* ---- 5. Discard restores the session ---- *)
 Theorem C07_sk_determines : forall s s',
   ledger_inv s -> ledger_inv s' -> hv s = hv s' -> jv s = jv s' -> nv s = nv s' ->
@@ -144,6 +233,19 @@ Theorem C07_discard_restores : forall eps s sid ops,
   binds (stmt_discard eps s' sid) = binds s /\ evicts (stmt_discard eps s' sid) = evicts s.
 Proof. exact discard_restores. Qed.
 Print Assumptions C07_discard_restores.
+
+(* the same in skeleton form (stronger than sess_eqv: statuses, node names AND requests of every
+   task, job task sets / TaskToSubJob, node-held copies incl. requests are EQUAL; heap objects of
+   untouched tasks are identical; the statement is empty) *)
+Theorem C07_discard_restores_skeleton : forall eps s sid ops,
+  sess_ok s -> default [] (stmts s !! sid) = [] -> NoDup (map tx_tid ops) -> Forall (tx_pre s) ops ->
+  let s' := stmt_discard eps (run eps s (map (tx_op sid) ops)) sid in
+  hv s' = hv s /\ jv s' = jv s /\ nv s' = nv s /\
+  (forall k d, shamt (hshare s') k d = shamt (hshare s) k d) /\
+  (forall j, j ∉ (list_to_set (map tx_tid ops) : gset positive) -> heap s' !! j = heap s !! j) /\
+  default [] (stmts s' !! sid) = [].
+Proof. exact discard_restores_skeleton. Qed.
+Print Assumptions C07_discard_restores_skeleton.
 
 (* the frame lemma behind it: an operation on task i changes heap entry i, the node copies keyed
    i and the handler ledger's coverage monotonically -- and keeps the preconditions of every
@@ -181,13 +283,7 @@ Theorem C07_commit_refused_bind_rolls_back : forall eps s sid p nid s1,
 Proof. exact commit_refused_bind_rolls_back. Qed.
 Print Assumptions C07_commit_refused_bind_rolls_back.
 
-Theorem C07_commit_accepted_bind : forall eps s p prev,
-  heap s !! t_id p = Some p -> t_id p ∉ refuse_bind s -> is_Some (jobs s !! t_job p) ->
-  let s2 := commit_op eps s (mkOp KAllocate (t_id p) prev) in
-  binds s2 = (t_id p, t_node p) :: binds s /\ evicts s2 = evicts s /\
-  heap s2 !! t_id p = Some (set_status p Binding).
-Proof. exact commit_accepted_bind. Qed.
-Print Assumptions C07_commit_accepted_bind.
+
 
 (* ---- 7. the executable invariant of the law implies the invariant of the theorems ---- *)
 Theorem C07_ledger_okb_sound : forall s,
